@@ -1,12 +1,17 @@
 #!/bin/bash
 # usage: other.sh <seed> <PROP>  : run another property's check against a seed and record it
+clean_scratch_build() { # removes the binaries and module copy that ./check built for a scratch tree
+  local suf; suf=$(echo "$1" | cksum | cut -d' ' -f1)
+  rm -rf /verif/.cache/bin/*-$suf /verif/.cache/bin/*-$suf.* /verif/.cache/mod-$suf
+}
+
 export GOFLAGS=-mod=mod GOPROXY=off GOSUMDB=off GOTOOLCHAIN=local
 n=$1; P=$2; WT=/tmp/voth_$$
 git -C /repo worktree add -q --detach $WT HEAD || exit 2
 git -C $WT apply /verif/seeded/$n/patch.diff || { git -C /repo worktree remove --force $WT; exit 3; }
 res=$(VERIF_REPO=$WT /verif/check $P 2>&1); rc=$?
 keys=$(echo "$res" | grep '^violation key=' | sed 's/^violation key=\([^ ]*\).*/\1/' | paste -sd' ')
-git -C /repo worktree remove --force $WT
+git -C /repo worktree remove --force $WT; clean_scratch_build $WT
 case $rc in 1) v=caught;; 0) v=MISSED;; *) v="rc=$rc";; esac
 echo "[$n] $P: $v [$keys]"
 python3 - "$n" "$P" "$v" "$keys" <<'PY'
